@@ -165,6 +165,13 @@ namespace ip {
 			return;
 		}
 
+		// the socket is already bound
+		if (m_bound_to != ip::tcp::endpoint())
+		{
+			ec = error::invalid_argument;
+			return;
+		}
+
 		ip::tcp::endpoint addr = m_io_service.bind_socket(this, ep, ec);
 		if (ec) return;
 		m_bound_to = addr;
